@@ -12,6 +12,11 @@ From ShipGen Require Import WsTable.
 Import ListNotations.
 Local Open Scope nat_scope.
 
+(* the translator recognised every shape fact of ws/websocket.go the model is parametric in;
+   if it did not, nothing below is checked and C12/C13 report the broken obligation *)
+Lemma source_shape_recognised : ws_shape_recognised = true.
+Proof. reflexivity. Qed.
+
 (* ------------------------------------------------------------------ verified equality *)
 Lemma beq_bool a b : Bool.eqb a b = true -> a = b.
 Proof. apply Bool.eqb_prop. Qed.
@@ -507,6 +512,7 @@ Lemma c13_no_admission_after_report s s' :
 Proof.
   intros R E S D. destruct (c13_facts s R) as (_ & _ & F & _).
   unfold step in S. destruct (panic s); [discriminate|]. unfold reader_step in S. rewrite E in S.
+  assert (v_read_recheck V0 = true) as RC by (vm_compute; reflexivity). rewrite RC in S. simpl in S.
   destruct (flag (sh s)) eqn:Fl.
   - inversion S; subst. simpl in D. discriminate.
   - destruct (reported (gh s)) eqn:Rp; [reflexivity| |]; destruct F as [F _]; congruence.
